@@ -64,7 +64,7 @@ class TermSpace(object):
         ctx = self.m.ctx
         lid = ctx.fresh('L' + label)
         lz = Lazy('LTermInner', lid, _Spec(self, depth))
-        return Adt('LTerm', 0, (Adt('Rc', 0, (lz,), ctx.new_tag()),))
+        return Adt('LTerm', 0, (Adt('Rc', 0, (Ref(Cell(lz)),), ctx.new_tag()),))
 
     def alternatives(self, ctx, lz, depth):
         m = self.m
@@ -103,7 +103,7 @@ class TermSpace(object):
             if 'pair' in self.compounds:
                 def b_pair(ctx, lz):
                     obj = Adt('(tuple)', 0, (self.fresh(depth - 1, 'a'), self.fresh(depth - 1, 'b')))
-                    return Adt('LTermInner', en.index('Compound'), (Adt('Rc', 0, (obj,), ctx.new_tag()),))
+                    return Adt('LTermInner', en.index('Compound'), (Adt('Rc', 0, (Ref(Cell(obj)),), ctx.new_tag()),))
                 alts.append((True, b_pair))
         return alts
 
@@ -149,8 +149,12 @@ class TermSpace(object):
             return ('cons', self.view(v.fields[0]), self.view(v.fields[1]))
         if k == 'Compound':
             obj = v.fields[0]
-            while isinstance(obj, Adt) and obj.ty in ('Rc', 'Box'):
-                obj = obj.fields[0]
+            while isinstance(obj, Ref) or (isinstance(obj, Adt) and obj.ty in ('Rc', 'Box')):
+                if isinstance(obj, Ref):
+                    from values import load
+                    obj = load(obj, None)
+                else:
+                    obj = obj.fields[0]
             if isinstance(obj, Adt) and obj.ty == '(tuple)':
                 return ('pair', self.view(obj.fields[0]), self.view(obj.fields[1]))
             return ('comp', obj.ty, [self.view(f) if _is_term(f) else ('opaque', f) for f in obj.fields])
@@ -331,8 +335,8 @@ def rust_of_view(space, v, model, sigma):
 def smap_views(space, m, state):
     """[(key_view, value_view)] of a State's substitution, using the lazy-aware view."""
     st = val(m, state)
-    smap = st.fields[0]
+    smap = val(m, st.fields[0])
     while isinstance(smap, Adt) and smap.ty in ('Rc',):
-        smap = smap.fields[0]
-    hm = smap.fields[0]
+        smap = val(m, smap.fields[0])
+    hm = val(m, smap.fields[0])
     return [(space.view(e.fields[0]), space.view(e.fields[1])) for e in hm.fields]
